@@ -1,6 +1,7 @@
 (* C01 Natively evaluated queries return what the reference Prometheus engine returns.
    Property theorems only; they assemble the per-construct results. Partial: see the note. *)
 From Coq Require Import List String ZArith NArith Bool Lia.
+From Verif Require TreeOps.
 From Verif Require Import Base Grid Select SelectProofs Shard Exec Compose StreamWF Agg AggProofs.
 From Verif Require Bin BinProofs EndToEnd Trees.
 Import ListNotations.
@@ -79,8 +80,9 @@ Proof. cbv zeta. split; vm_compute; reflexivity. Qed.
 
 (* ... and for arbitrary trees of vector/vector binary operators, per-sample
    operators (instant functions, unary minus, arithmetic and comparisons with a
-   literal) and count aggregations over selectors, e.g.
-   count by (z) (abs(a + on (x) b) * ignoring (y) group_left (c > 2)): every node's stream is its
+   literal), aggregations (count; any accumulator with an order-free fold: sum, max, min, group)
+   over selectors and over range functions of matrix selectors (any function of the window), e.g.
+   sum by (z) (abs(a + on (x) b) * ignoring (y) group_left (max_over_time(c[5m] offset 1m) > 2)): every node's stream is its
    per-timestamp denotation (Trees.jdenote) mapped over the grid; its sample IDs are distinct and name series
    of the node; at every timestamp at which the reference evaluation of the
    node succeeds, the node's labelled samples are a permutation of the
@@ -119,6 +121,21 @@ Proof.
     try (intros i j Hi Hj _; simpl in Hi, Hj; lia); try discriminate.
   intros i j Hi Hj H. vm_compute in Hi, Hj.
   destruct i as [|[|i]]; destruct j as [|[|j]]; try lia; try reflexivity; vm_compute in H; discriminate.
+Qed.
+
+(* non-vacuity with a range function and an aggregation: sum by (b) (max_over_time(foo[60ms])) *)
+Example C01_range_agg_tree_example :
+  let foo_l := [[(0, 10); (1, 20); (2, 31)]; [(0, 10); (1, 21); (2, 31)]; [(0, 10); (1, 22); (2, 32)]]%N in
+  let foo_s := [[mkS 940 (Some 2); mkS 990 (Some 7); mkS 1040 (Some 3)]; [mkS 950 (Some 5)]; [mkS 1000 (Some 1)]] in
+  let t := Trees.JAgg (TreeOps.zinit 0) (TreeOps.zadd 0) false [2%N]
+                      (Trees.JRange false (TreeOps.zrange 2) 60 foo_l foo_s 0) in
+  Trees.jok t /\
+  Trees.jrun (mkCfg 2 10 300) (mkW 1000 1100 50) t =
+    inl [(1000, [(0%nat, 12); (1%nat, 1)]); (1050, [(0%nat, 7); (1%nat, 1)]); (1100, [(0%nat, 3)])] /\
+  Trees.jseries t = [[(2, 31)]; [(2, 32)]]%N.
+Proof.
+  cbv zeta. split; [|split; vm_compute; reflexivity].
+  simpl. repeat split; try (intros; lia); repeat constructor; simpl; lia.
 Qed.
 
 (* PARTIAL. The full statement (value equality with the reference for every
